@@ -524,16 +524,16 @@ type obs struct {
 }
 
 type result struct {
-	Plan     *plan   `json:"plan"`
-	Offset   string  `json:"offset_expr"`
-	LogStart int64   `json:"log_start"`
-	HWM      int64   `json:"hwm"`
-	LSO      int64   `json:"lso"`
-	Expected int64   `json:"expected_position"`
-	Fetches  []int64 `json:"fetch_offsets_seen"`
-	Resolved int64   `json:"resolved_fetch_offset"`
-	FirstRec int64   `json:"first_record_offset"`
-	WantRec  int64   `json:"expected_first_record_offset"`
+	Plan     *plan    `json:"plan"`
+	Offset   string   `json:"offset_expr"`
+	LogStart int64    `json:"log_start"`
+	HWM      int64    `json:"hwm"`
+	LSO      int64    `json:"lso"`
+	Expected int64    `json:"expected_position"`
+	Fetches  []int64  `json:"fetch_offsets_seen"`
+	Resolved int64    `json:"resolved_fetch_offset"`
+	FirstRec int64    `json:"first_record_offset"`
+	WantRec  int64    `json:"expected_first_record_offset"`
 	Errs     []string `json:"poll_errors,omitempty"`
 	Log      []string `json:"log,omitempty"`
 }
@@ -835,15 +835,20 @@ func runCase(r *vh.Run, i int) {
 		pollWG.Wait()
 	}()
 
-	kindKey := p.Off.Kind
+	// sigKind names the rule that decides the position (part of violation
+	// signatures); kindKey additionally carries the configured start offset
+	// (part of the distinctness key only).
+	sigKind := p.Off.Kind
 	if p.Off.Epoch {
-		kindKey += "+epoch"
+		sigKind += "+epoch"
 	}
+	kindKey := sigKind
 	if p.Mode == "group" && p.HasCommit {
-		kindKey = "group-committed/" + kindKey
+		sigKind = "group-committed"
 		if p.CommitEp {
-			kindKey += "/commit-epoch"
+			sigKind += "+epoch"
 		}
+		kindKey = sigKind + "/" + kindKey
 	}
 	iso := "ru"
 	if p.RC {
@@ -926,7 +931,7 @@ func runCase(r *vh.Run, i int) {
 		sigClass += "/" + ex.MilliCase
 	}
 	if resolved != ex.Pos {
-		sig := fmt.Sprintf("resolved fetch offset differs from the documented position: kind=%s iso=%s class=%s", kindKey, iso, sigClass)
+		sig := fmt.Sprintf("resolved fetch offset differs from the documented position: kind=%s iso=%s class=%s", sigKind, iso, sigClass)
 		if ex.MilliCase != "" {
 			sig = fmt.Sprintf("AfterMilli: resolved fetch offset is not the first offset with timestamp >= t, else the end [%s]", ex.MilliCase)
 		}
@@ -987,7 +992,7 @@ func runCase(r *vh.Run, i int) {
 		return
 	}
 	if first != want {
-		r.Violation(fmt.Sprintf("first returned record differs from the first visible record at the documented position: kind=%s iso=%s class=%s", kindKey, iso, sigClass),
+		r.Violation(fmt.Sprintf("first returned record differs from the first visible record at the documented position: kind=%s iso=%s class=%s", sigKind, iso, sigClass),
 			wit(fmt.Sprintf("%s (mode %s): documented position %d, first visible record at or after it %d, first returned record %d", p.Off, p.Mode, ex.Pos, want, first)))
 		return
 	}
@@ -1016,7 +1021,7 @@ func runCase(r *vh.Run, i int) {
 func TestCheck(t *testing.T) {
 	r := vh.Start(t, "C40")
 	n := r.Pick(400, 40000)
-	vh.Parallel(n, 8, func(i int) {
+	vh.Parallel(n, r.Pick(8, 16), func(i int) {
 		if p := vh.Catch(func() { runCase(r, i) }); p != nil {
 			r.Inconclusive(fmt.Sprintf("case %d: harness panic: %v", i, p))
 		}
